@@ -36,7 +36,8 @@ ASSUMPTIONS = [
     "loop: the word in transit is the generator's word XOR a free 36-bit mask (data+ctrl) in command-word cycles; a word is "
     "transferred when the generator's valid meets the free `ready`",
 ]
-BOUNDS = "BMC from reset: generator alone K=12/18, detector alone K=8/12, loop K=12/18 (quick/thorough); all inputs free per cycle"
+BOUNDS = "BMC from reset: generator alone K=12/18, detector alone K=8/12, loop K=12/18 (quick/thorough); all inputs free per cycle; " \
+         "plus 2-step induction from an arbitrary state for each harness (unbounded length)"
 OUTSIDE = "the link layer's use of the strobes (C37/C38/C39); corruption of the start word in the loop harness beyond the " \
           "detector-alone harness (where every word is free); sequences longer than K"
 
@@ -380,9 +381,43 @@ class LoopHarness(Harness):
         return d
 
 
+def _inv(kind):
+    """IND strengthening: ghost protocol phase == DUT FSM state (looked up by name; layer skipped if absent)"""
+    def inv(ts, frame, h):
+        import z3
+        conds, names = [], []
+
+        def get(*ns):
+            sigs = [ts.signal_by_name(n) for n in ns]
+            names.extend(ns)
+            return None if any(x is None for x in sigs) else [frame.sig(x) for x in sigs]
+        if kind in ("gen", "loop"):
+            pre = "dut" if kind == "gen" else "gen"
+            v = get("g_phase", f"{pre}.fsm_state", "g_cmd", "g_sub", f"{pre}.latched_command", f"{pre}.latched_subtype")
+            if v is None:
+                return None, names
+            ph, st, gc, gs, lc, ls = v
+            conds += [ph == st, z3.ULE(ph, 2), z3.Implies(ph != 0, z3.And(gc == lc, gs == ls))]
+        if kind == "det":
+            v = get("armed", "dut.fsm_state")
+            if v is None:
+                return None, names
+            conds.append(v[0] == v[1])
+        if kind == "loop":
+            v = get("g_phase", "det.fsm_state")
+            if v is None:
+                return None, names
+            conds.append((v[1] == 1) == (v[0] == 2))
+        return conds, ["ghost phase == FSM state", "ghost latched fields == DUT latched fields"]
+    return inv
+
+
 def queries(tier):
     quick = tier == "quick"
-    return [
+    ind = [Query(f"ind_{n}", f, 2, kind="ind", invariants=_inv(k), timeout=600,
+                 desc="2-step induction from an arbitrary state (unbounded length); invariant: ghost protocol phase == FSM state")
+           for n, f, k in (("generator", GeneratorHarness, "gen"), ("detector", DetectorHarness, "det"), ("loop", LoopHarness, "loop"))]
+    return ind + [
         Query("bmc_generator", GeneratorHarness, 12 if quick else 18, timeout=600,
               desc="generator alone: generate/command/subtype/ready free every cycle; wire format, CRC-5, done"),
         Query("bmc_detector", DetectorHarness, 8 if quick else 12, timeout=600,
